@@ -1317,6 +1317,64 @@ impl LayoutInfo {
     }
 }
 
+/// Comment variants are a pure function of the comment's text (no extra draws, so saved byte cases keep their
+/// meaning): a quote character inside a comment (`it's`, an unbalanced `"`) and the shapes of block comments.
+const CMT_SALT: u64 = 28;
+
+fn cmt_variant(text: &str) -> u64 {
+    splitmix(fnv1a(text) ^ CMT_SALT)
+}
+
+/// 1 in 3 comments carries a quote character: comments are not string context, so it must change nothing
+fn cmt_aug(text: &str, li: &mut LayoutInfo) -> String {
+    match cmt_variant(text) % 6 {
+        4 => {
+            li.label("layout:comment-with-apostrophe");
+            format!("{} it's", text)
+        }
+        5 => {
+            li.label("layout:comment-with-double-quote");
+            format!("{} \"q", text)
+        }
+        _ => text.to_string(),
+    }
+}
+
+/// block comment in one of the shapes people write: padded, tight, doc style, toggle idiom `/*/ … /*/`,
+/// commented-out line comment `/*// … */`, several lines, starred end
+fn block_comment(text: &str, li: &mut LayoutInfo) -> String {
+    let t = cmt_aug(text, li);
+    match (cmt_variant(text) >> 8) % 8 {
+        2 => {
+            li.label("layout:block-comment-tight");
+            // leading blank: `/` directly followed by `/*` would read as the line comment `//*…` (maximal munch)
+            format!(" /*{}*/", t)
+        }
+        3 => {
+            li.label("layout:block-comment-doc");
+            format!(" /** {} */ ", t)
+        }
+        4 => {
+            li.label("layout:block-comment-toggle");
+            format!(" /*/ {} /*/ ", t)
+        }
+        5 => {
+            li.label("layout:block-comment-of-line-comment");
+            format!(" /*// {} */ ", t)
+        }
+        6 => {
+            li.label("layout:block-comment-multiline");
+            let (a, b) = t.split_once(' ').unwrap_or((t.as_str(), ""));
+            format!(" /* {}\n * {}\n */ ", a, b)
+        }
+        7 => {
+            li.label("layout:block-comment-starred-end");
+            format!(" /* {} **/ ", t)
+        }
+        _ => format!(" /* {} */ ", t),
+    }
+}
+
 fn gen_comment_text(s: &mut Src) -> String {
     let n = 1 + s.below(3);
     let mut t = String::new();
@@ -1346,6 +1404,7 @@ fn full_line_comment(mut text: String, indent: &str, ex: &mut Excl, tags: &mut V
     }
     ascii_feature(&mut text, ex, tags);
     li.label("layout:full-line-comment");
+    let text = cmt_aug(&text, li);
     format!("\n{}// {}\n{}", indent, text, indent)
 }
 
@@ -1391,6 +1450,7 @@ fn draw_gap(s: &mut Src, must: bool, canon_sp: bool, ex: &mut Excl, tags: &mut V
                 tags.push(FINDINGS[F_CMT_TRAIL].tag);
                 ascii_feature(&mut t, ex, tags);
                 li.label("layout:trailing-comment");
+                let t = cmt_aug(&t, li);
                 format!(" // {}\n{}", t, indent)
             }
         }
@@ -1403,7 +1463,7 @@ fn draw_gap(s: &mut Src, must: bool, canon_sp: bool, ex: &mut Excl, tags: &mut V
                 tags.push(FINDINGS[F_CMT_BLOCK].tag);
                 ascii_feature(&mut t, ex, tags);
                 li.label("layout:block-comment");
-                format!(" /* {} */ ", t)
+                block_comment(&t, li)
             }
         }
         _ => {
